@@ -407,8 +407,15 @@ class VCRuntime:
 
         from . import text as _text
 
+        if isinstance(o, _re.Pattern) and args and hasattr(args[0], "sym_regex") and name in ("fullmatch", "match", "search"):
+            return args[0].sym_regex(o, name)
         if isinstance(o, _re.Pattern) and args and isinstance(args[0], _text.SText):
             return _text.regex_call(o, name, args, kw)
+        if isinstance(o, _re.Pattern) and args and isinstance(args[0], SBytes) and name in ("fullmatch", "match", "search"):
+            return stubs.rope_regex(o, name, args[0])
+        if o is _re and name in ("fullmatch", "match", "search") and len(args) >= 2 and isinstance(args[1], SBytes):
+            pat = args[0] if isinstance(args[0], _re.Pattern) else _re.compile(args[0], *args[2:])
+            return stubs.rope_regex(pat, name, args[1])
         if o is _re and name in ("fullmatch", "match", "search") and len(args) >= 2 and isinstance(args[1], _text.SText):
             pat = args[0] if isinstance(args[0], _re.Pattern) else _re.compile(args[0], *args[2:])
             return _text.regex_call(pat, name, (args[1],), kw)
@@ -465,6 +472,8 @@ class VCRuntime:
         for v in linfo["assigned"]:
             if v in spec.keep or (v.startswith("__vc") and not v.startswith("__vc_lc")):
                 continue
+            if v not in L:
+                continue  # not bound at the loop head: cannot be live across the back edge of a well-formed loop
             if v in spec.types:
                 new[v] = spec.types[v](f"{v}@loop{k}")
             elif v in L:
